@@ -52,6 +52,7 @@ Defaults   == << [k |-> "none", v |-> ""], [k |-> "none", v |-> ""], [k |-> "int
                  [k |-> "expr", v |-> "a + 'b'"],
                  \* a quoted default keeps its kind whatever it spells; an expression may itself begin and end with a parenthesis
                  [k |-> "str", v |-> "12"], [k |-> "str", v |-> "00501"], [k |-> "str", v |-> "1.50"],
+                 [k |-> "str", v |-> "true"], [k |-> "str", v |-> "False"],
                  [k |-> "expr", v |-> "(a) * (b)"], [k |-> "expr", v |-> "(now())"] >>
 Colors     == <<"", "", "#abc", "#A1B2C3", "#fff000">>
 PropKeys   == <<"owner", "pii", "k_3", "my key", "notes_key">>
